@@ -8,7 +8,7 @@
    composite indicators and whole operation programs: correspondence + falsifier. *)
 From Coq Require Import ZArith List String Bool.
 From Hexital Require Import Base.Prelude Base.Num Model.Manager Model.Candle Model.Readings Model.Engine
-  Proofs.AccessProofs Proofs.EngineProofs Proofs.MaintProofs.
+  Proofs.AccessProofs Proofs.EngineProofs Proofs.MaintProofs Proofs.CompositeProofs Proofs.AtrCompose.
 Import ListNotations.
 
 Theorem C14_purge_exact :
@@ -81,3 +81,12 @@ Proof.
   intros O I calc xs ys s1 s2 Hx Hy H1 H2.
   eapply R_append; [apply R_purge; eapply R_append; [apply R_init|exact Hx|exact H1]|exact Hy|exact H2].
 Qed.
+
+(* a composite indicator (ATR over its true-range helper): calling calculate() again changes nothing *)
+Theorem C14_atr_calculate_idempotent :
+  forall (O : NumOps) (period : Z) (name : string) (rnd : Z), (1 <= period)%Z -> has_dot name = false ->
+  forall (xs : list (cd (payload O))) (st : store O),
+  Forall (fresh O (Pa O period name rnd)) xs -> Forall (fresh O (Sb O name)) xs ->
+  calculate O (top O (K_ATR period) name rnd) xs = Ok st -> calculate O (top O (K_ATR period) name rnd) st = Ok st.
+Proof. intros O period name rnd Hp Hn xs st HP HS H. eapply atr_calculate_idempotent; eassumption. Qed.
+Print Assumptions C14_atr_calculate_idempotent.
